@@ -68,8 +68,7 @@ theorem patch_eq_rfc_partial (ser : JVal → Bytes) (eq : JVal → JVal → Bool
     ∃ r, applyC ser eq .null doc (.arr elems) = .ok r ∧ (r.tags = [] → MatchesRfc r (Rfc6902.apply doc ops)) := by
   obtain ⟨r, hr⟩ := applyC_total ser eq .null doc (.arr elems)
   refine ⟨r, hr, fun ht => ?_⟩
-  simp only [applyC, hdoc, isNull, Bool.false_and, Bool.not_false, Bool.not_true, Bool.and_false, Bool.or_self,
-    Bool.false_eq_true, if_false, if_true] at hr
+  rw [applyC_base ser eq doc elems hdoc] at hr
   have := applyLoop_refines ser eq (.arr elems) elems ops 0 none doc [] r hdec hsmall hr ht
   unfold MatchesRfc Rfc6902.apply
   cases hx : Rfc6902.applyFrom 0 doc ops with
@@ -83,8 +82,7 @@ theorem patch_eq_rfc_copy_partial (ser : JVal → Bytes) (eq : JVal → JVal →
     ∃ r, applyC ser eq doc .null (.arr elems) = .ok r ∧ (r.tags = [] → MatchesRfc r (Rfc6902.apply doc ops)) := by
   obtain ⟨r, hr⟩ := applyC_total ser eq doc .null (.arr elems)
   refine ⟨r, hr, fun ht => ?_⟩
-  simp only [applyC, hdoc, isNull, Bool.false_and, Bool.not_false, Bool.not_true, Bool.and_false, Bool.or_self,
-    Bool.false_eq_true, if_false, if_true, Bool.true_and, Bool.and_true] at hr
+  rw [applyC_copy ser eq doc elems hdoc] at hr
   have := applyLoop_refines ser eq (.arr elems) elems ops 0 none doc [] r hdec hsmall hr ht
   unfold MatchesRfc Rfc6902.apply
   cases hx : Rfc6902.applyFrom 0 doc ops with
@@ -121,13 +119,118 @@ theorem patch_malformed_safe (ser : JVal → Bytes) (eq : JVal → JVal → Bool
       ∃ j, r.idx = some j ∧ j ≤ pre.length := by
   obtain ⟨r, hr, hrc, j, hj, _, h2⟩ := applyLoop_malformed ser eq (.arr (pre ++ bad :: post)) pre bad post 0 none doc [] hbad
   refine ⟨r, ?_, hrc, j, hj, by omega⟩
-  simp only [applyC, hdoc, isNull, Bool.false_and, Bool.not_false, Bool.not_true, Bool.and_false, Bool.or_self,
-    Bool.false_eq_true, if_false]
+  rw [applyC_base ser eq doc _ hdoc]
   exact hr
 
 /-- one malformed element, one operation: the error is EINVAL-class failure of that very element -/
 theorem step_malformed_fails (ser : JVal → Bytes) (eq : JVal → JVal → Bool) (doc bad : JVal) (hbad : Malformed ser bad) :
     ∃ o, step ser eq doc bad = .ok o ∧ o.rc = -1 :=
   step_malformed ser eq doc bad hbad
+
+/-! ## Counter-examples to the full-strength statements (one per known-finding clause) -/
+
+/-- `{"op": op, "path": path, ...extra}` -/
+def mkOp (op path : Bytes) (extra : List (Bytes × JVal)) : JVal :=
+  .obj ([(kOp, .str op), (kPath, .str path)] ++ extra)
+
+def int1 : JVal := .int true 1
+
+/-- patch.null-root: `[{add "" null},{test "" null}]` on `{}`: RFC 6902 succeeds with the document
+null; json_patch_apply fails at operation 1 (json_pointer_get_internal rejects the NULL document). -/
+theorem null_root_counterexample :
+    ∃ r, applyC (fun _ => []) jsonObjectEqual .null (.obj [])
+        (.arr [mkOp sAdd [] [(kValue, .null)], mkOp sTest [] [(kValue, .null)]]) = .ok r ∧
+      r.rc = -1 ∧ r.idx = some 1 ∧ r.tags = [tagNullRoot] ∧
+      Rfc6902.decodeAll [mkOp sAdd [] [(kValue, .null)], mkOp sTest [] [(kValue, .null)]] =
+        some [.add [] .null, .test [] .null] ∧
+      (∃ d, Rfc6902.apply (.obj []) [.add [] .null, .test [] .null] = .ok d) :=
+  ⟨_, rfl, rfl, rfl, rfl, rfl, _, rfl⟩
+
+/-- hence the statement without the "no tag fired" hypothesis does not hold for the current code -/
+theorem patch_eq_rfc_fails : ¬ PatchEqRfcStatement := by
+  intro h
+  have hs : SmallRun (.obj []) [.add [] .null, .test [] .null] :=
+    smallRun_cons _ _ _ _ rfl rfl (smallRun_cons _ _ _ _ rfl rfl trivial)
+  obtain ⟨r, hr, hm⟩ := h (fun _ => []) (.obj [])
+    [mkOp sAdd [] [(kValue, .null)], mkOp sTest [] [(kValue, .null)]] [.add [] .null, .test [] .null] rfl rfl hs
+  obtain ⟨r', hr', hrc, _⟩ := null_root_counterexample
+  rw [hr] at hr'
+  simp only [Outcome.ok.injEq] at hr'
+  subst hr'
+  have hx : Rfc6902.apply (.obj []) [.add [] .null, .test [] .null] = .ok .null := rfl
+  rw [hx] at hm
+  unfold MatchesRfc at hm
+  omega
+
+/-- patch.test.int-vs-double: `test "/a" 1.0` on `{"a":1}`: equal by RFC 6902 4.6, unequal for
+json_object_equal. -/
+theorem int_vs_double_counterexample :
+    ∃ r, applyC (fun _ => []) jsonObjectEqual .null (.obj [([0x61], int1)])
+        (.arr [mkOp sTest [0x2f, 0x61] [(kValue, .dbl 0x3ff0000000000000 none)]]) = .ok r ∧
+      r.rc = -1 ∧ r.idx = some 0 ∧ r.tags = [tagIntDouble] ∧
+      Rfc6902.decodeAll [mkOp sTest [0x2f, 0x61] [(kValue, .dbl 0x3ff0000000000000 none)]] =
+        some [.test [[0x61]] (.dbl 0x3ff0000000000000 none)] ∧
+      (∃ d, Rfc6902.apply (.obj [([0x61], int1)]) [.test [[0x61]] (.dbl 0x3ff0000000000000 none)] = .ok d) :=
+  ⟨_, rfl, rfl, rfl, rfl, rfl, _, rfl⟩
+
+/-- patch.cstr-truncation: `add "/a\u0000b" 7` on `{"a":1}`: RFC 6902 adds the member "a\u0000b";
+json_patch_apply replaces the member "a". -/
+theorem cstr_truncation_counterexample :
+    ∃ r, applyC (fun _ => []) jsonObjectEqual .null (.obj [([0x61], int1)])
+        (.arr [mkOp sAdd [0x2f, 0x61, 0, 0x62] [(kValue, .int true 7)]]) = .ok r ∧
+      r.rc = 0 ∧ r.tags = [tagNul] ∧ r.doc.dump = "{61:i7}" ∧
+      (∃ d, Rfc6902.applyPatch (.obj [([0x61], int1)]) (.arr [mkOp sAdd [0x2f, 0x61, 0, 0x62] [(kValue, .int true 7)]]) = .ok d ∧
+        d.dump = "{61:i1,610062:i7}") :=
+  ⟨_, rfl, rfl, rfl, by decide, _, rfl, by decide⟩
+
+/-- The full-strength statement about patches that are not RFC 6902 patch documents: every such
+patch is refused.  `patch_malformed_safe` proves it for the causes listed in `Malformed`; it is
+false in general for the current code (a `path` that is not an RFC 6901 pointer because of a stray
+`~` is accepted: next theorem). -/
+def PatchRejectsNonRfcStatement : Prop :=
+  ∀ (ser : JVal → Bytes) (doc : JVal) (elems : List JVal), isNull doc = false →
+    (∃ i e, Rfc6902.applyPatch doc (.arr elems) = .error (some i, e)) →
+    ∃ r, applyC ser jsonObjectEqual .null doc (.arr elems) = .ok r ∧ r.rc < 0
+
+/-- patch.ptr.tilde-lenient: `add "/~2" 1` on `{}`: "/~2" is not a JSON Pointer (RFC 6901 section 3),
+the operation must fail; json_patch_apply adds the member "~2". -/
+theorem tilde_lenient_counterexample :
+    ∃ r, applyC (fun _ => []) jsonObjectEqual .null (.obj []) (.arr [mkOp sAdd [0x2f, 0x7e, 0x32] [(kValue, int1)]]) = .ok r ∧
+      r.rc = 0 ∧ r.tags = [tagTilde] ∧ r.doc.dump = "{7e32:i1}" ∧
+      Rfc6902.applyPatch (.obj []) (.arr [mkOp sAdd [0x2f, 0x7e, 0x32] [(kValue, int1)]]) = .error (some 0, .malformed) :=
+  ⟨_, rfl, rfl, rfl, by decide, rfl⟩
+
+theorem patch_rejects_non_rfc_fails : ¬ PatchRejectsNonRfcStatement := by
+  intro h
+  obtain ⟨r, hr, hneg⟩ := h (fun _ => []) (.obj []) [mkOp sAdd [0x2f, 0x7e, 0x32] [(kValue, int1)]] rfl
+    ⟨0, .malformed, rfl⟩
+  obtain ⟨r', hr', hrc, _⟩ := tilde_lenient_counterexample
+  rw [hr] at hr'
+  simp only [Outcome.ok.injEq] at hr'
+  subst hr'
+  omega
+
+/-! ## Non-vacuity -/
+
+/-- a five-operation patch (add into an array, move between containers with an escaped key, copy
+onto an ancestor of nothing, test, remove) on `{"a":[1,2],"b":{}}` meets every hypothesis of
+`patch_eq_rfc_partial`, fires no tag, and is computed by the model to the RFC's result. -/
+example :
+    let doc : JVal := .obj [([0x61], .arr [int1, .int true 2]), ([0x62], .obj [])]
+    let elems : List JVal := [
+      mkOp sAdd [0x2f, 0x61, 0x2f, 0x31] [(kValue, .int true 9)],                       -- add /a/1 9
+      mkOp sMove [0x2f, 0x62, 0x2f, 0x78, 0x7e, 0x31, 0x79] [(kFrom, .str [0x2f, 0x61, 0x2f, 0x30])], -- move /a/0 -> /b/x~1y
+      mkOp sCopy [0x2f, 0x63] [(kFrom, .str [0x2f, 0x62])],                             -- copy /b -> /c
+      mkOp sTest [0x2f, 0x63, 0x2f, 0x78, 0x7e, 0x31, 0x79] [(kValue, .int false 1)],   -- test /c/x~1y 1 (uint64-typed)
+      mkOp sRemove [0x2f, 0x61, 0x2f, 0x30] []]                                         -- remove /a/0
+    ∃ ops r, Rfc6902.decodeAll elems = some ops ∧ isNull doc = false ∧ SmallRun doc ops ∧
+      applyC (fun _ => []) jsonObjectEqual .null doc (.arr elems) = .ok r ∧ r.tags = [] ∧ r.rc = 0 ∧
+      Rfc6902.apply doc ops = .ok r.doc ∧ r.doc.dump = "{61:[i2],62:{782f79:i1},63:{782f79:i1}}" := by
+  refine ⟨_, _, rfl, rfl, ?_, rfl, rfl, rfl, rfl, by decide⟩
+  exact smallRun_cons _ _ _ _ rfl rfl (smallRun_cons _ _ _ _ rfl rfl (smallRun_cons _ _ _ _ rfl rfl
+    (smallRun_cons _ _ _ _ rfl rfl (smallRun_cons _ _ _ _ rfl rfl trivial))))
+
+/-- a malformed element (null `op`) meets the hypothesis of `patch_malformed_safe` -/
+example : Malformed (fun _ => []) (.obj [(kOp, .null), (kPath, .str [])]) := Malformed.opNull _ rfl
 
 end JsonC.Patch
